@@ -63,7 +63,7 @@ theorem invA_begin {c s i s'} (h : InvA c s) (hs : step c s (.begin i) = some s'
     all_goals grind
   · cases hs
 
-theorem invA_abort {c s i s'} (h : InvA c s) (hs : step c s (.abort i) = some s') : InvA c s' := by
+theorem invA_abort {c s i t s'} (h : InvA c s) (hs : step c s (.abort i t) = some s') : InvA c s' := by
   simp only [step] at hs
   split at hs
   · rename_i hc
@@ -226,7 +226,7 @@ theorem invA_step {c s e s'} (h : InvA c s) (hs : step c s e = some s') : InvA c
   | recv => exact invA_recv h hs
   | ctxDone => exact invA_ctxDone h hs
   | «begin» i => exact invA_begin h hs
-  | abort i => exact invA_abort h hs
+  | abort i t => exact invA_abort h hs
   | drain => exact invA_drain h hs
   | cancelOne i => exact invA_cancelOne h hs
 
